@@ -217,6 +217,7 @@ def run_live_orders(case):
        ["place", mid, name, strat, sel, side, price_c, size_c]      market.place_order with a real BetfairOrder (package captured, not sent)
        ["ack", name, bet]                                          what a SUCCESS place response does: bet id + executable()
        ["stream", [rows]]                                          CurrentOrdersEvent through fw._process_current_orders
+       ["poll"]                                                    one poll of the paper-trading order stream (SimulatedOrderStream._get_current_orders)
     """
     import types
     from flumine.order.trade import Trade
@@ -288,6 +289,17 @@ def run_live_orders(case):
                     o.responses.placed()
                     with o.trade:
                         o.executable()
+            elif step[0] == "poll":
+                # one poll of the paper-trading order stream (SimulatedOrderStream.run calls this every streaming_timeout while there are live orders):
+                # the client's orders of every open market; reading them must leave the blotters as they are
+                from flumine.streams.simulatedorderstream import SimulatedOrderStream
+                if "sos" not in names:
+                    names["sos"] = SimulatedOrderStream(fw, stream_id=9000, streaming_timeout=0.25, client=client)
+                try:
+                    got = names["sos"]._get_current_orders()
+                    res = ["polled", sorted(name_of(o) for o in got)]
+                except Exception as e:
+                    res = "EXC:" + type(e).__name__ + ":" + str(e)[:100]
             elif step[0] == "stream":
                 rows = [current_order_row(r, names, strategies) for r in step[1] if (isinstance(r["ref"], list) or r["ref"] in names)]
                 co = types.SimpleNamespace(client=client, orders=rows)
